@@ -240,7 +240,13 @@ fn main() {
 
     let listen_task = {
         let core = core.clone();
-        async move { core.listen().await }
+        async move {
+            core.listen().await?;
+            // `listen` returns `Ok` only once a shutdown has been submitted. The sessions are
+            // still winding down at that point: `interrupt_task` ends the process when the
+            // last of them has finished.
+            std::future::pending::<std::io::Result<()>>().await
+        }
     };
 
     let reload_tls_hosts_task = {
